@@ -366,6 +366,12 @@ def step64 (st : St) (cmd : List String) (got : String) : Option (St × Verdict)
         some ({ st with bm64 := st.bm64.insert y s },
           expect (digest s ++ " " ++ nExp ++ " " ++ l ++ " " ++ cExp ++ " ok") got)
     | none => some (skip64 st got)
+  | "rdfail64" :: y :: entry :: x :: cut :: _ =>
+    match st.bm64[y]?, st.bm64[x]?, cut.toNat? with
+    | some _, some _, some _ =>
+      if !entry64 entry || got.startsWith "skip" then some (skip64 st got)
+      else some ({ st with bm64 := st.bm64.erase y }, expect "err ok" got)
+    | _, _, _ => some (skip64 st got)
   | "dec64" :: y :: entry :: hx :: _ =>
     if !entry64 entry then some (skip64 st got)
     else match hexBytes hx with
